@@ -552,7 +552,7 @@ double reb_M_to_E(double e, double M){
 		return E;
 	}
 	else{
-		E = M/fabs(M)*log(2.*fabs(M)/e + 1.8);
+		E = copysign(log(2.*fabs(M)/e + 1.8), M); // copysign instead of M/fabs(M): well defined at pericentre passage (M=0)
 
 		double F = E - e*sinh(E) + M;
 		for(int i=0; i<100; i++){
@@ -932,18 +932,18 @@ struct reb_particle reb_particle_from_orbit_err(double G, struct reb_particle pr
         return reb_particle_nan();
     }
     if(e > 1.){
-        if(a > 0.){
-            *err = 3; 	// Bound orbit (a > 0) must have e < 1. 
+        if(a >= 0.){
+            *err = 3; 	// Bound orbit (a > 0) must have e < 1. (a = 0 is degenerate and rejected as well.)
             return reb_particle_nan();
         }
     }
     else{
-        if(a < 0.){
-            *err =4; 	// Unbound orbit (a < 0) must have e > 1.
+        if(a <= 0.){
+            *err =4; 	// Unbound orbit (a < 0) must have e > 1. (a = 0 is degenerate and rejected as well.)
             return reb_particle_nan();
         }
     }
-    if(e*cos(f) < -1.){
+    if(e*cos(f) <= -1.){
         *err = 5;		// Unbound orbit can't have f set beyond the range allowed by the asymptotes set by the parabola.
         return reb_particle_nan();
     }
